@@ -270,6 +270,9 @@ def objects(family, seed=0):
         for a in R4:
             for b in R4:
                 yield Q(["orscale", [T(a), T(b)], 0.5])
+                # low child scores: the coordination bonus outweighs the penalty, so
+                # the matcher's score exceeds its child's
+                yield Q(["orscale", [["boost", T(a), 0.05], ["boost", T(b), 0.1]], 0.9])
                 yield {"kind": "direct", "name": "coord", "asts": [["and", [T(a), T(b)]]], "scale": 0.5}
                 for c in R3:
                     yield Q(["orscale", [T(a), T(b), T(c)], 0.9])
